@@ -754,6 +754,7 @@ func (e *bEngine) runPath(st *bState, work *[]*bState, atReturn func(st *bState,
 					fr.vals[x] = e.symVal(st, e.freshName("neg"), x.Type())
 				} else {
 					fr.vals[x] = bScalar{Neg(t)}
+					e.signedRange(st, Neg(t), x.Type(), "neg", x.Pos())
 				}
 			default:
 				fr.vals[x] = e.symVal(st, e.freshName("unop"), x.Type())
@@ -763,6 +764,11 @@ func (e *bEngine) runPath(st *bState, work *[]*bState, atReturn func(st *bState,
 				fmt.Fprintf(os.Stderr, "binop %s: %s | %s | %s\n", e.fp.fset.Position(x.Pos()), x.String(), describeVal(e.get(st, fr, x.X)), describeVal(e.get(st, fr, x.Y)))
 			}
 			fr.vals[x] = e.binop(st, x.Op, e.get(st, fr, x.X), e.get(st, fr, x.Y), x.Type())
+			if x.Op == token.ADD || x.Op == token.SUB || x.Op == token.MUL {
+				if r, ok := fr.vals[x].(bScalar); ok {
+					e.signedRange(st, r.t, x.Type(), x.Op.String(), x.Pos())
+				}
+			}
 		case *ssa.Store:
 			p, ok := e.get(st, fr, x.Addr).(bPtr)
 			if !ok {
@@ -1220,12 +1226,18 @@ func (e *bEngine) doCall(st *bState, fr *bFrame, ci ssa.CallInstruction) {
 	}
 	// a module function without abstract contract: execute it inline
 	name := callee.String()
+	// a function may re-enter itself once (Add(ct, int64) forwards to Add(ct, *big.Int)); deeper recursion
+	// without a contract is an unknown call
+	depth := 0
 	for _, c := range st.calls {
 		if c == name {
-			e.unknownCall(st, "recursive call of "+name, at)
-			setRes(freshRes("rec"))
-			return
+			depth++
 		}
+	}
+	if depth >= 2 {
+		e.unknownCall(st, "recursive call of "+name, at)
+		setRes(freshRes("rec"))
+		return
 	}
 	if len(st.frames) >= bMaxDepth {
 		e.unknownCall(st, "call depth exceeded at "+name, at)
@@ -1503,10 +1515,14 @@ func (e *bEngine) verify(caseSpec string) {
 	e.loopAbs = len(con.Raw["loopabs"]) > 0
 	e.safety = len(con.Raw["safety"]) > 0
 	e.safetyIndex = false
+	e.safetyOverflow = false
 	for _, sf := range con.Raw["safety"] {
 		for _, f := range strings.Fields(sf) {
 			if f == "index" {
 				e.safetyIndex = true
+			}
+			if f == "overflow" {
+				e.safetyOverflow = true
 			}
 		}
 	}
@@ -1835,4 +1851,18 @@ func (e *bEngine) tryIteCall(st *bState, f *ssa.Function, args []bVal) (bVal, bo
 		return nil, false
 	}
 	return bScalar{st.norm(Ite(c.t, x, y))}, true
+}
+
+// signedRange: under `safety overflow`, the mathematical result of +, -, * or unary minus on a SIGNED
+// machine integer owes its type's range (lattigo never relies on signed wrap-around).
+func (e *bEngine) signedRange(st *bState, t *Term, typ types.Type, what string, pos token.Pos) {
+	if !e.safetyOverflow || t == nil || t.Sort != SInt {
+		return
+	}
+	k, ok := intKindOf(typ)
+	if !ok || !k.signed || k.bits == 0 || t.IsConst() {
+		return
+	}
+	lo, hi := k.rng()
+	e.oblige(st, "overflow", what, And(Le(Const(lo), t), Le(t, Const(hi))), e.fp.fset.Position(pos).String())
 }
